@@ -31,6 +31,12 @@ PROPS = {
     "C05": dict(mode="model", profile="ttl", **tiers(1500, 60, 40000, 120),
                 rule=GEN_RULE + "non-trivial = at least one hit within 1 ms before the deadline and at least one write that moved an existing deadline",
                 needs=["hits_within_1ms_of_deadline", "writes_moving_a_deadline"]),
+    "C08": dict(mode="model", profile="general", **tiers(3000, 100, 30000, 200, q_fuzz_s=20, t_fuzz_s=240),
+                rule=GEN_RULE + "plus libFuzzer byte strings decoded to cases (16 jobs, one container kind each); the monitor is ASan + UBSan + libstdc++ checked iterators + "
+                "the Tracked value type (self pointer, magic, owned heap block, live-instance counter that must return to its baseline when the container is destroyed); "
+                "non-trivial = at least two slot recycles (removal -> creation) in the history",
+                needs=["slot_recycles"],
+                assumptions=["uninitialised reads are not monitored (no MSan-instrumented libstdc++ in this image)"]),
     "C09": dict(mode="model", profile="general", **tiers(1500, 60, 40000, 120, t_fuzz_s=90),
                 rule=GEN_RULE + "non-trivial = at least one rejected and one accepted insert whose key had a prior history (erased, evicted or expired)",
                 needs=["rejected_with_prior_history", "accepted_with_prior_history"]),
@@ -95,6 +101,8 @@ MANIFEST_TEXT = {
     "C03": _mt(_E1, _PBT + "the model's permitted-loss rule (peek scan of all live keys after every call)", "bounded exploration; every loss of a live key must be one the statement permits", _NOTE_MODEL, "DESIGN.md 5/C03"),
     "C04": _mt(_E1, _PBT + "the model's deadlines on a harness-owned clock (exact-deadline and +-1 ns probes)", "bounded exploration with constructed boundary instants", _NOTE_MODEL, "DESIGN.md 5/C04"),
     "C05": _mt(_E1, _PBT + "the model's deadlines on a harness-owned clock (deadline-1 ns probes, deadline-moving writes)", "bounded exploration with constructed boundary instants", _NOTE_MODEL, "DESIGN.md 5/C05"),
+    "C08": _mt("E1 seq + E2 fuzz", "fuzzing (libFuzzer, structure-aware byte decoder) and property-based testing (rapidcheck) with ASan + UBSan + libstdc++ debug-mode iterators + an instrumented value type as the monitor",
+               "bounded exploration: sanitizers see only the executions run; all ten containers x both thread_safe modes x Tracked and std::string values", "trusted: sanitizer runtimes, libstdc++ debug mode, src/values.hpp Tracked accounting; no MSan", "DESIGN.md 5/C08"),
     "C09": _mt(_E1, _PBT + "the model's allow-mode table; insert_range decided by enumerating every outcome the single inserts permit", "bounded exploration over key histories x allow modes", _NOTE_MODEL, "DESIGN.md 5/C09"),
     "C10": _mt(_E1, _PBT + "the model's recency stamps (victim must be the least recently used live key)", "bounded exploration of recency-shuffling histories on lru/tlru/utlru", _NOTE_MODEL, "DESIGN.md 5/C10"),
     "C11": _mt(_E1, _PBT + "the model's use counts (peeked after every step) and minimal-count victim rule", "bounded exploration on lfu (and lfuda between aging points)", _NOTE_MODEL, "DESIGN.md 5/C11"),
@@ -113,5 +121,4 @@ MANIFEST_TEXT = {
 NOT_APPLICABLE = [
     {"property_id": "C06", "reason": "check under construction in this round (schedule engine E3); will be claimed once built"},
     {"property_id": "C07", "reason": "check under construction in this round (TSan engine E4); will be claimed once built"},
-    {"property_id": "C08", "reason": "check under construction in this round (libFuzzer + sanitizers); will be claimed once built"},
 ]
